@@ -30,6 +30,7 @@ import (
 	"github.com/WICG/webpackage/go/signedexchange/zverif/mc"
 	"github.com/WICG/webpackage/go/signedexchange/zverif/refbx"
 	"github.com/WICG/webpackage/go/signedexchange/zverif/refcbor"
+	"github.com/WICG/webpackage/go/signedexchange/zverif/refpolicy"
 )
 
 // c10Walk records every CBOR head of a (sequence of) item(s) in b; byte strings
@@ -103,6 +104,8 @@ type c10Target struct {
 	name      string
 	artifacts []*c10Artifact
 	run       func(in []byte)
+	// gen, when set, replaces the artifact/mutation scheme by an own enumeration of inputs
+	gen func(c *mc.Ctx) (in []byte, op string)
 }
 
 type c10World struct {
@@ -304,6 +307,28 @@ func c10Build() *c10World {
 		e.SignatureHeaderValue = string(in)
 		e.Verify(verifyAt, func(string) ([]byte, error) { return chain, nil }, c10DiscardLog)
 	}})
+	// --- the verifier behind a VALID signature: what a hostile but properly signing origin can put into the
+	// signed fields reaches code that random mutations never reach (they die at the signature check).
+	// Every status code 100..999 x version, really signed (ECDSA), verified inside the window.
+	w.targets = append(w.targets, &c10Target{name: "Exchange.Verify(validly signed exchange, any status)",
+		gen: func(c *mc.Ctx) ([]byte, string) {
+			ver := c.Free(3, "version")
+			status := 100 + c.Free(900, "status")
+			form := c.Free(2, "memory/wire")
+			return []byte{byte(ver), byte(status >> 8), byte(status), byte(form)}, fmt.Sprintf("signed:%s:status=%d:form=%d", c09Versions[ver], status, form)
+		},
+		run: func(in []byte) {
+			verS := string(c09Versions[in[0]])
+			right, _ := refpolicy.IntegrityFor(verS)
+			cs := &c09Case{ver: int(in[0]), wire: in[3] == 1, reqURL: c09ReqURLs[0], method: "GET", status: int(in[1])<<8 | int(in[2]), ctype: true,
+				sigs: []c09Sig{{tm: c09Time{"default", 1000, 1000, 0}, validity: c09ValidityAlts(c09ReqURLs[0])[0].url, integrity: right}}}
+			e, _, err := c09Build(cs, 1)
+			if err != nil {
+				return // the library refused to build / write / read it: no parser ran on it
+			}
+			fetch := func(string) ([]byte, error) { return c09CertBytes, nil }
+			e.Verify(time.Unix(c09T0, 0), fetch, c10DiscardLog)
+		}})
 	// --- raw CBOR decoder methods, structured headers, integrity-block detection: raw strings
 	rawArt := []*c10Artifact{{name: "raw", data: nil}}
 	w.targets = append(w.targets, &c10Target{name: "cbor.Decoder(all methods)", artifacts: rawArt, run: func(in []byte) {
@@ -465,6 +490,10 @@ func init() {
 				return &c10Case{target: c10W.bundleRead, input: cs.input, op: "c05:" + cs.base.name + ":" + cs.op}
 			}
 			t := c10W.targets[ti]
+			if t.gen != nil {
+				in, op := t.gen(c)
+				return &c10Case{target: t, input: in, op: op}
+			}
 			a := t.artifacts[c.Free(len(t.artifacts), "artifact")]
 			if a.data == nil {
 				// raw inputs: all strings <= 2 bytes (thorough) / over the reduced alphabet (quick), 3..4 bytes reduced
@@ -552,7 +581,7 @@ func init() {
 	register(&mc.Property{
 		ID:          "C10",
 		Level:       "model_checking",
-		Rule:        "choice-tree enumeration of hostile inputs for every parser entry point (bundle.Read, ReadExchange, Exchange.Verify with hostile file / hostile cert chain, ReadCertChain, bundle signature NewVerifier+VerifyExchange on properly signed hostile subsets, both structured-header parsers, MI decoder for both drafts on hostile streams and on hostile digest-header strings, Exchange.Verify with a hostile Signature header string, bundle.Read with a hostile variants-value string in a consistently re-encoded b1 index, every cbor.Decoder method, integrity-block detection on a reader and on a file), executed in watchdog-supervised workers under ulimit -v: valid artifacts of every format with one mutation (every CBOR length/count head x 11 boundary values, every fixed-width length field x boundary values, truncation at every offset, every byte x 8 values quick / 256 thorough, every byte deleted, one of 13 bytes inserted at every position) and all raw strings up to 3 bytes over a 21-byte alphabet (thorough: all strings <= 2 bytes, <= 4 reduced) with integrity-block tails. Monitor: returns (no panic, no crash, no hang) and heap allocation <= 64 MiB + 64 x len(input) (runtime/metrics). Every case is non-trivial (the monitor applies to all); distinct by (entry point, input).",
+		Rule:        "choice-tree enumeration of hostile inputs for every parser entry point (bundle.Read, ReadExchange, Exchange.Verify with hostile file / hostile cert chain, ReadCertChain, bundle signature NewVerifier+VerifyExchange on properly signed hostile subsets, both structured-header parsers, MI decoder for both drafts on hostile streams and on hostile digest-header strings, Exchange.Verify with a hostile Signature header string, Exchange.Verify on really signed exchanges of every version with every status 100..999 (in memory and re-read), bundle.Read with a hostile variants-value string in a consistently re-encoded b1 index, every cbor.Decoder method, integrity-block detection on a reader and on a file), executed in watchdog-supervised workers under ulimit -v: valid artifacts of every format with one mutation (every CBOR length/count head x 11 boundary values, every fixed-width length field x boundary values, truncation at every offset, every byte x 8 values quick / 256 thorough, every byte deleted, one of 13 bytes inserted at every position) and all raw strings up to 3 bytes over a 21-byte alphabet (thorough: all strings <= 2 bytes, <= 4 reduced) with integrity-block tails. Monitor: returns (no panic, no crash, no hang) and heap allocation <= 64 MiB + 64 x len(input) (runtime/metrics). Every case is non-trivial (the monitor applies to all); distinct by (entry point, input).",
 		Assumptions: []string{"the allocation bound's constant covers the two 3-byte-length prologue buffers (2 x 16 MiB) the signed-exchange format itself allows", "cbor.Deterministic is not an entry point of this property (its refusal-by-panic is judged under C13)"},
 		Harnesses:   []*mc.Harness{h},
 		Guard: func(s map[string]*mc.Stats) error {
